@@ -407,7 +407,9 @@ nni_msgq_resize(nni_msgq *mq, int cap)
 	nni_free(oldq, sizeof(nni_msg *) * oldalloc);
 
 out:
-	// Wake everyone up -- we changed everything.
+	// The capacity (and possibly the fill level) changed, and with
+	// them whether the queue is sendable.
+	nni_msgq_run_notify(mq);
 	nni_mtx_unlock(&mq->mq_lock);
 	return (0);
 }
